@@ -114,18 +114,58 @@ SUBSTITUTABLE = (ast.Name, ast.Attribute, ast.Subscript, ast.Call, ast.BinOp, as
                  ast.Dict, ast.Set)
 
 
-class Extractor:
-    def __init__(self, prog: Program, func: FuncInfo, solver_names=("self.solver", "self")):
-        self.prog = prog
-        self.func = func
-        self.effects: List[Effect] = []
-        self.order = 0
-        self.solver_names = solver_names
+DOMAIN_WRAPPERS = {"list", "sorted", "tuple", "set", "frozenset"}
+PARAMS = {
+    "add_variables": ["indexes", "name_prefix", "lb", "ub", "var_type"],
+    "add_constraint": ["expr", "name"],
+    "add_binary_continuous_product_constraint": ["binary_var", "continuous_var", "product_var", "lb", "ub", "name"],
+    "add_integer_continuous_product_constraint": ["integer_var", "continuous_var", "product_var", "lb", "ub", "name"],
+    "add_piecewise_constant_constraint": ["x", "y", "ranges", "constants", "name_prefix"],
+    "queue_fix_variable": ["var", "value"],
+    "queue_set_var_lower_bound": ["var", "lb"],
+    "fix_variable": ["var", "value"],
+    "set_objective": ["expr", "sense"],
+}
+_FRESH = [0]
 
-    def run(self) -> List[Effect]:
-        # locals that are mutated in place (x.add(..), x[..] = .., x += ..) have no single symbolic value: never substituted
+
+def _fresh(base: str) -> str:
+    _FRESH[0] += 1
+    return f"_c{_FRESH[0]}_{base}"
+
+
+def _tuple_index_simplify(e: ast.AST) -> ast.AST:
+    """(a, b)[0] -> a   (after substituting a local tuple alias)"""
+    class S(ast.NodeTransformer):
+        def visit_Subscript(self, node):
+            node = self.generic_visit(node)
+            if isinstance(node.value, ast.Tuple) and isinstance(node.slice, ast.Constant) and isinstance(node.slice.value, int) and \
+                    -len(node.value.elts) <= node.slice.value < len(node.value.elts):
+                return node.value.elts[node.slice.value]
+            return node
+    return S().visit(e)
+
+
+def has_direct_effects(func_node: ast.AST) -> bool:
+    for n in walk_no_nested(func_node):
+        if isinstance(n, ast.Call) and isinstance(n.func, ast.Attribute) and n.func.attr in SOLVER_EFFECTS and dotted(n.func.value) in ("self.solver", "self"):
+            return True
+        if isinstance(n, ast.Assign):
+            for t in n.targets:
+                if isinstance(t, ast.Subscript) and (dotted(t.value) or "")[5:] in FLAG_ATTRS and (dotted(t.value) or "").startswith("self."):
+                    return True
+    return False
+
+
+class _FnCtx:
+    """per-function facts used while walking its body"""
+
+    def __init__(self, func: FuncInfo):
+        self.func = func
         self.mutated: Set[str] = set()
-        for n in walk_no_nested(self.func.node):
+        self.builders: Dict[str, list] = {}
+        node = func.node
+        for n in walk_no_nested(node):
             if isinstance(n, ast.Call) and isinstance(n.func, ast.Attribute) and isinstance(n.func.value, ast.Name) and \
                     n.func.attr in ("add", "append", "extend", "update", "insert", "remove", "discard", "pop", "clear", "setdefault"):
                 self.mutated.add(n.func.value.id)
@@ -136,8 +176,7 @@ class Extractor:
                         self.mutated.add(t.value.id)
                     if isinstance(n, ast.AugAssign) and isinstance(t, ast.Name):
                         self.mutated.add(t.id)
-        self.builders: Dict[str, List[str]] = {}
-        for n in walk_no_nested(self.func.node):
+        for n in walk_no_nested(node):
             if isinstance(n, ast.stmt) and not isinstance(n, (ast.If, ast.For, ast.While, ast.With, ast.Try, ast.FunctionDef)):
                 for nm in self.mutated:
                     hit = False
@@ -152,10 +191,36 @@ class Extractor:
                         hit = True
                     if hit:
                         self.builders.setdefault(nm, []).append((n.lineno, n))
+
+
+class Extractor:
+    """cls: the class whose MRO resolves `self.m(...)`; no_inline(owner_class_name, method_name) -> True for methods that
+    are described on their own (tabled encoders): their calls are not followed.  Every other private method that has
+    solver effects is inlined at its call sites (so that 'extract method' refactorings do not change the description),
+    and methods that only compute and return an expression are inlined into the expressions that call them."""
+
+    MAX_DEPTH = 3
+
+    def __init__(self, prog: Program, func: FuncInfo, solver_names=("self.solver", "self"), cls: Optional[ClassInfo] = None, no_inline=None):
+        self.prog = prog
+        self.func = func
+        self.cls = cls
+        self.no_inline = no_inline
+        self.effects: List[Effect] = []
+        self.order = 0
+        self.solver_names = solver_names
+        self.stack: List[str] = []
+
+    def run(self) -> List[Effect]:
+        self.cur = _FnCtx(self.func)
+        self.stack = [self.func.name]
         self._block(self.func.node.body, [], {})
-        for e in self.effects:
-            e.builders = self.builders
         return self.effects
+
+    # ------------------------------------------------------------------ helpers
+    @property
+    def mutated(self):
+        return self.cur.mutated
 
     def _is_solver_call(self, call: ast.Call) -> Optional[str]:
         if isinstance(call.func, ast.Attribute) and call.func.attr in SOLVER_EFFECTS:
@@ -164,31 +229,284 @@ class Extractor:
                 return call.func.attr
         return None
 
+    def _resolve_self_method(self, call: ast.Call):
+        if self.cls is None or not isinstance(call.func, ast.Attribute) or dotted(call.func.value) != "self":
+            return None
+        for c in self.prog.mro(self.cls):
+            if call.func.attr in c.methods:
+                return c, c.methods[call.func.attr]
+        return None
+
+    def _bind(self, callee: FuncInfo, call: ast.Call, env) -> Optional[Dict[str, ast.AST]]:
+        a = callee.node.args
+        if a.vararg or a.kwarg:
+            return None
+        params = [p.arg for p in a.posonlyargs + a.args]
+        if params and params[0] in ("self", "cls"):
+            params = params[1:]
+        out: Dict[str, ast.AST] = {}
+        if len(call.args) > len(params) or any(isinstance(x, ast.Starred) for x in call.args) or any(k.arg is None for k in call.keywords):
+            return None
+        for p, x in zip(params, call.args):
+            out[p] = subst(x, env)
+        names = params + [p.arg for p in a.kwonlyargs]
+        for k in call.keywords:
+            if k.arg not in names:
+                return None
+            out[k.arg] = subst(k.value, env)
+        defaults = dict(zip(params[len(params) - len(a.defaults):], a.defaults)) if a.defaults else {}
+        for p, d in zip(a.kwonlyargs, a.kw_defaults):
+            if d is not None:
+                defaults[p.arg] = d
+        for p in names:
+            if p not in out:
+                if p not in defaults:
+                    return None
+                out[p] = copy.deepcopy(defaults[p])
+        return out
+
+    def _pure_value(self, callee: FuncInfo, env_c: Dict[str, ast.AST]) -> Optional[ast.AST]:
+        """symbolic value of a method that only computes and returns an expression (straight-line locals, if/else returns)"""
+        def run(stmts, env) -> Optional[ast.AST]:
+            env = dict(env)
+            for i, st in enumerate(stmts):
+                if isinstance(st, ast.Expr) and isinstance(st.value, ast.Constant):
+                    continue
+                if isinstance(st, ast.Assign) and len(st.targets) == 1 and isinstance(st.targets[0], ast.Name) and isinstance(st.value, SUBSTITUTABLE):
+                    env[st.targets[0].id] = subst(st.value, env)
+                    continue
+                if isinstance(st, ast.Return) and st.value is not None:
+                    return subst(st.value, env)
+                if isinstance(st, ast.If):
+                    a = run(st.body, env)
+                    b = run(st.orelse + stmts[i + 1:], env) if True else None
+                    if a is None or b is None:
+                        return None
+                    return ast.IfExp(test=subst(st.test, env), body=a, orelse=b)
+                return None
+            return None
+        if has_direct_effects(callee.node):
+            return None
+        for n in walk_no_nested(callee.node):
+            if isinstance(n, (ast.For, ast.While, ast.Try, ast.With, ast.AugAssign, ast.Raise)):
+                return None
+            if isinstance(n, ast.Assign) and not all(isinstance(t, ast.Name) for t in n.targets):
+                return None
+        return run(callee.node.body, env_c)
+
+    def _inline_pure(self, e: ast.AST, env, depth=0) -> ast.AST:
+        if self.cls is None or depth > self.MAX_DEPTH:
+            return e
+        ex = self
+
+        class I(ast.NodeTransformer):
+            def visit_Call(self, node):
+                node = self.generic_visit(node)
+                r = ex._resolve_self_method(node)
+                if r is None:
+                    return node
+                owner, callee = r
+                if callee.name in ex.stack:
+                    return node
+                b = ex._bind(callee, node, {})
+                if b is None:
+                    return node
+                v = ex._pure_value(callee, b)
+                if v is None:
+                    return node
+                ex.stack.append(callee.name)
+                try:
+                    return ex._inline_pure(v, {}, depth + 1)
+                finally:
+                    ex.stack.pop()
+        return I().visit(e)
+
+    def _expr(self, e: ast.AST, env) -> ast.AST:
+        """substituted, helper-inlined, domain-expanded expression"""
+        x = subst(e, env)
+        x = self._inline_pure(x, env)
+        x = _tuple_index_simplify(x)
+        x = self._expand_comprehensions(x, env)
+        return x
+
+    # ------------------------------------------------------------------ iteration domains
+    def _domain(self, target: ast.AST, it: ast.AST, env) -> Tuple[List[Ctx], Dict[str, ast.AST]]:
+        """Canonical description of `for target in it`: a list of for/if context entries and bindings for target names.
+        Comprehension domains are flattened ([t for t in D if c] -> binder over D, guard c), enumerate / items are turned
+        into index form, copies (list(), sorted(), ...) are dropped, self attributes defined earlier in the same method are
+        replaced by their definition."""
+        it = self._inline_pure(subst(it, env), env)
+        for _ in range(4):
+            d = dotted(it)
+            if d and d.startswith("self.") and d in env:
+                it = copy.deepcopy(env[d])
+                continue
+            if isinstance(it, ast.Call) and isinstance(it.func, ast.Name) and it.func.id in DOMAIN_WRAPPERS and len(it.args) == 1 and not it.keywords:
+                it = it.args[0]
+                continue
+            if isinstance(it, ast.Call) and isinstance(it.func, ast.Attribute) and it.func.attr == "keys" and not it.args:
+                it = it.func.value
+                continue
+            break
+        binds: Dict[str, ast.AST] = {}
+        if isinstance(it, (ast.ListComp, ast.GeneratorExp, ast.SetComp)):
+            out: List[Ctx] = []
+            ren: Dict[str, str] = {}
+            for g in it.generators:
+                names = [n.id for n in ast.walk(g.target) if isinstance(n, ast.Name)]
+                for nm in names:
+                    ren[nm] = _fresh(nm)
+                g_it = Renamer({k: v for k, v in ren.items() if k not in names}).visit(copy.deepcopy(g.iter))
+                tgt = Renamer(ren).visit(copy.deepcopy(g.target))
+                sub_ctx, sub_b = self._domain(tgt, g_it, {})
+                out.extend(sub_ctx)
+                binds.update(sub_b)
+                for c in g.ifs:
+                    out.append(Ctx("if", test=subst(Renamer(ren).visit(copy.deepcopy(c)), binds), pol=True))
+            elt = subst(Renamer(ren).visit(copy.deepcopy(it.elt)), binds)
+            self._unify(target, elt, binds)
+            return out, binds
+        if isinstance(it, ast.Call) and isinstance(it.func, ast.Name) and it.func.id == "enumerate" and len(it.args) == 1 and not it.keywords and \
+                isinstance(target, ast.Tuple) and len(target.elts) == 2 and isinstance(target.elts[0], ast.Name):
+            seq = it.args[0]
+            if isinstance(seq, (ast.Name, ast.Attribute, ast.Subscript)):
+                j = target.elts[0]
+                rng = ast.Call(func=ast.Name(id="range", ctx=ast.Load()), args=[ast.Call(func=ast.Name(id="len", ctx=ast.Load()), args=[copy.deepcopy(seq)], keywords=[])], keywords=[])
+                item = ast.Subscript(value=copy.deepcopy(seq), slice=ast.Name(id=j.id, ctx=ast.Load()), ctx=ast.Load())
+                self._unify(target.elts[1], item, binds)
+                return [Ctx("for", target=j, iter=rng)], binds
+        if isinstance(it, ast.Call) and isinstance(it.func, ast.Attribute) and it.func.attr == "items" and not it.args and \
+                isinstance(target, ast.Tuple) and len(target.elts) == 2 and isinstance(it.func.value, (ast.Name, ast.Attribute)):
+            k = target.elts[0]
+            item = ast.Subscript(value=copy.deepcopy(it.func.value), slice=copy.deepcopy(k), ctx=ast.Load())
+            if isinstance(k, ast.Tuple):
+                item = ast.Subscript(value=copy.deepcopy(it.func.value), slice=ast.Tuple(elts=[copy.deepcopy(x) for x in k.elts], ctx=ast.Load()), ctx=ast.Load())
+            self._unify(target.elts[1], item, binds)
+            return [Ctx("for", target=k, iter=it.func.value)], binds
+        return [Ctx("for", target=target, iter=it)], binds
+
+    def _unify(self, target: ast.AST, value: ast.AST, binds: Dict[str, ast.AST]):
+        if isinstance(target, ast.Name):
+            if not (isinstance(value, ast.Name) and value.id == target.id):
+                binds[target.id] = value
+        elif isinstance(target, (ast.Tuple, ast.List)) and isinstance(value, (ast.Tuple, ast.List)) and len(target.elts) == len(value.elts):
+            for t, v in zip(target.elts, value.elts):
+                self._unify(t, v, binds)
+        elif isinstance(target, (ast.Tuple, ast.List)):
+            for i, t in enumerate(target.elts):
+                self._unify(t, ast.Subscript(value=copy.deepcopy(value), slice=ast.Constant(i), ctx=ast.Load()), binds)
+
+    def _expand_comprehensions(self, e: ast.AST, env) -> ast.AST:
+        """the same domain canonicalisation for the generators of comprehensions inside an expression"""
+        ex = self
+
+        class X(ast.NodeTransformer):
+            def _comp(self, node):
+                node = self.generic_visit(node)
+                gens: List[ast.comprehension] = []
+                binds: Dict[str, ast.AST] = {}
+                changed = False
+                for g in node.generators:
+                    g_iter = subst(g.iter, binds)
+                    ctxs, b = ex._domain(g.target, g_iter, {k: v for k, v in env.items() if k.startswith("self.")})
+                    simple = len(ctxs) == 1 and ctxs[0].kind == "for" and not b and ctxs[0].target is g.target and ast.dump(ctxs[0].iter) == ast.dump(g_iter)
+                    if simple:
+                        gens.append(ast.comprehension(target=g.target, iter=g_iter, ifs=[subst(c, binds) for c in g.ifs], is_async=0))
+                        continue
+                    changed = True
+                    binds.update(b)
+                    pend: List[ast.AST] = []
+                    for c in ctxs:
+                        if c.kind == "for":
+                            gens.append(ast.comprehension(target=c.target, iter=c.iter, ifs=[], is_async=0))
+                        else:
+                            t = c.test if c.pol else ast.UnaryOp(op=ast.Not(), operand=c.test)
+                            if gens:
+                                gens[-1].ifs.append(t)
+                            else:
+                                pend.append(t)
+                    if gens:
+                        gens[-1].ifs.extend(pend + [subst(c, binds) for c in g.ifs])
+                if not changed:
+                    return node
+                node = copy.copy(node)
+                node.generators = gens
+                for fld in ("elt", "key", "value"):
+                    if hasattr(node, fld):
+                        setattr(node, fld, _tuple_index_simplify(subst(getattr(node, fld), binds)))
+                return node
+            visit_GeneratorExp = _comp
+            visit_ListComp = _comp
+            visit_SetComp = _comp
+        return X().visit(e)
+
+    # ------------------------------------------------------------------ effects
     def _record_calls(self, expr: ast.AST, ctx, env, target=None):
         for c in [n for n in ast.walk(expr) if isinstance(n, ast.Call)]:
             k = self._is_solver_call(c)
             if k is None:
                 continue
             args = {}
-            params = {
-                "add_variables": ["indexes", "name_prefix", "lb", "ub", "var_type"],
-                "add_constraint": ["expr", "name"],
-                "add_binary_continuous_product_constraint": ["binary_var", "continuous_var", "product_var", "lb", "ub", "name"],
-                "add_integer_continuous_product_constraint": ["integer_var", "continuous_var", "product_var", "lb", "ub", "name"],
-                "add_piecewise_constant_constraint": ["x", "y", "ranges", "constants", "name_prefix"],
-                "queue_fix_variable": ["var", "value"],
-                "queue_set_var_lower_bound": ["var", "lb"],
-                "fix_variable": ["var", "value"],
-                "set_objective": ["expr", "sense"],
-            }[k]
+            params = PARAMS[k]
             for i, a in enumerate(c.args):
                 if i < len(params):
-                    args[params[i]] = subst(a, env)
+                    args[params[i]] = self._expr(a, env)
             for kw in c.keywords:
                 if kw.arg:
-                    args[kw.arg] = subst(kw.value, env)
+                    args[kw.arg] = self._expr(kw.value, env)
             self.order += 1
-            self.effects.append(Effect(k, c, list(ctx), args, target=target, func=self.func, order=self.order))
+            eff = Effect(k, c, list(ctx), args, target=target, func=self.cur.func, order=self.order)
+            eff.builders = self.cur.builders
+            self.effects.append(eff)
+
+    def _try_inline(self, call: ast.Call, ctx, env) -> Optional[Dict[str, ast.AST]]:
+        r = self._resolve_self_method(call)
+        if r is None or len(self.stack) > self.MAX_DEPTH:
+            return None
+        owner, callee = r
+        if callee.name in self.stack or callee.name.startswith("__"):
+            return None
+        if self.no_inline is not None and self.no_inline(owner.name, callee.name):
+            return None
+        if not self._has_effects_transitively(callee, set()):
+            return None
+        b = self._bind(callee, call, env)
+        if b is None:
+            return None
+        env_c = dict(b)
+        env_c.update({k: v for k, v in env.items() if k.startswith("self.")})
+        saved = self.cur
+        self.cur = _FnCtx(callee)
+        self.stack.append(callee.name)
+        try:
+            out = self._block(callee.node.body, ctx, env_c)
+        finally:
+            self.stack.pop()
+            self.cur = saved
+        return {k: v for k, v in out.items() if k.startswith("self.")}
+
+    def _has_effects_transitively(self, f: FuncInfo, seen: Set[str], depth=0) -> bool:
+        if f.qualname in seen or depth > self.MAX_DEPTH:
+            return False
+        seen.add(f.qualname)
+        if has_direct_effects(f.node):
+            return True
+        for c in calls_in(f.node):
+            r = self._resolve_self_method(c)
+            if r and self._has_effects_transitively(r[1], seen, depth + 1):
+                return True
+        return False
+
+    def _kill_self_on_calls(self, node: ast.AST, env):
+        """a call of another method of self may re-assign attributes: forget their definitions"""
+        for c in ast.walk(node):
+            if isinstance(c, ast.Call) and isinstance(c.func, ast.Attribute):
+                d = dotted(c.func.value) or ""
+                if d == "self":
+                    return {k: v for k, v in env.items() if not k.startswith("self.")}
+                if d.startswith("self.") and d in env and c.func.attr in ("add", "append", "extend", "update", "insert", "remove", "discard", "pop", "clear", "setdefault", "sort", "reverse"):
+                    env = {k: v for k, v in env.items() if k != d}
+        return env
 
     def _block(self, stmts: List[ast.stmt], ctx: List[Ctx], env: Dict[str, ast.AST]) -> Dict[str, ast.AST]:
         ctx = list(ctx)
@@ -198,29 +516,49 @@ class Extractor:
                 if len(st.targets) == 1:
                     tgt_name = dotted(st.targets[0])
                 self._record_calls(st.value, ctx, env, target=tgt_name)
+                inl = self._try_inline(st.value, ctx, env) if isinstance(st.value, ast.Call) else None
                 # flag stores
                 for t in st.targets:
                     if isinstance(t, ast.Subscript):
                         base = dotted(t.value) or ""
                         if base.startswith("self.") and base[5:] in FLAG_ATTRS:
                             self.order += 1
-                            self.effects.append(Effect("flag", st, list(ctx), {"index": subst(t.slice, env), "value": subst(st.value, env)},
-                                                       target=base[5:], func=self.func, order=self.order))
-                if len(st.targets) == 1 and isinstance(st.targets[0], ast.Name) and st.targets[0].id not in self.mutated and \
-                        isinstance(st.value, SUBSTITUTABLE) and \
-                        not any(self._is_solver_call(c) for c in ast.walk(st.value) if isinstance(c, ast.Call)):
-                    env = dict(env)
-                    env[st.targets[0].id] = subst(st.value, env)
+                            eff = Effect("flag", st, list(ctx), {"index": self._expr(t.slice, env), "value": self._expr(st.value, env)},
+                                         target=base[5:], func=self.cur.func, order=self.order)
+                            eff.builders = self.cur.builders
+                            self.effects.append(eff)
+                        if base.startswith("self.") and base in env:
+                            env = {k: v for k, v in env.items() if k != base}
+                pure = isinstance(st.value, SUBSTITUTABLE) and not any(self._is_solver_call(c) for c in ast.walk(st.value) if isinstance(c, ast.Call))
+                if inl is not None:
+                    env = {k: v for k, v in env.items() if not k.startswith("self.")}
+                    env.update(inl)
                 else:
-                    env = {k: v for k, v in env.items() if k not in _assigned_names([st])}
+                    env = self._kill_self_on_calls(st.value, env)
+                if len(st.targets) == 1 and isinstance(st.targets[0], ast.Name) and st.targets[0].id not in self.mutated and pure and inl is None:
+                    env = dict(env)
+                    env[st.targets[0].id] = _tuple_index_simplify(self._inline_pure(subst(st.value, env), env))
+                elif len(st.targets) == 1 and tgt_name and tgt_name.startswith("self.") and tgt_name.count(".") == 1 and pure and inl is None:
+                    env = dict(env)
+                    env[tgt_name] = subst(st.value, env)
+                else:
+                    killed = _assigned_names([st])
+                    env = {k: v for k, v in env.items() if k not in killed and not (tgt_name and k == tgt_name)}
             elif isinstance(st, (ast.AugAssign, ast.AnnAssign)):
                 if getattr(st, "value", None) is not None:
                     self._record_calls(st.value, ctx, env)
-                env = {k: v for k, v in env.items() if k not in _assigned_names([st])}
+                d = dotted(st.target) or ""
+                env = {k: v for k, v in env.items() if k not in _assigned_names([st]) and k != d}
             elif isinstance(st, ast.Expr):
                 self._record_calls(st.value, ctx, env)
+                inl = self._try_inline(st.value, ctx, env) if isinstance(st.value, ast.Call) else None
+                if inl is not None:
+                    env = {k: v for k, v in env.items() if not k.startswith("self.")}
+                    env.update(inl)
+                else:
+                    env = self._kill_self_on_calls(st.value, env)
             elif isinstance(st, ast.If):
-                test = subst(st.test, env)
+                test = self._expr(st.test, env)
                 e1 = self._block(st.body, ctx + [Ctx("if", test=test, pol=True)], dict(env))
                 e2 = self._block(st.orelse, ctx + [Ctx("if", test=test, pol=False)], dict(env))
                 j1, j2 = _ends_in_jump(st.body), (_ends_in_jump(st.orelse) if st.orelse else False)
@@ -246,14 +584,18 @@ class Extractor:
                 for n in ast.walk(st.target):
                     if isinstance(n, ast.Name):
                         assigned.add(n.id)
-                env_in = {k: v for k, v in env.items() if k not in assigned}
-                self._block(st.body, ctx + [Ctx("for", target=st.target, iter=subst(st.iter, env))], dict(env_in))
-                env = env_in
+                attr_assigned = {dotted(t) for s_ in st.body for n in ast.walk(s_) if isinstance(n, ast.Assign) for t in n.targets if dotted(t)}
+                env_in = {k: v for k, v in env.items() if k not in assigned and k not in attr_assigned}
+                dctx, binds = self._domain(st.target, st.iter, env)
+                body_env = dict(env_in)
+                body_env.update(binds)
+                self._block(st.body, ctx + dctx, body_env)
+                env = self._kill_self_on_calls(ast.Module(body=st.body, type_ignores=[]), env_in)
             elif isinstance(st, ast.While):
                 assigned = _assigned_names(st.body)
                 env_in = {k: v for k, v in env.items() if k not in assigned}
-                self._block(st.body, ctx + [Ctx("if", test=subst(st.test, env_in), pol=True)], dict(env_in))
-                env = env_in
+                self._block(st.body, ctx + [Ctx("if", test=self._expr(st.test, env_in), pol=True)], dict(env_in))
+                env = self._kill_self_on_calls(ast.Module(body=st.body, type_ignores=[]), env_in)
             elif isinstance(st, (ast.With, ast.AsyncWith)):
                 env = self._block(st.body, ctx, env)
             elif isinstance(st, ast.Try):
@@ -268,8 +610,8 @@ class Extractor:
         return env
 
 
-def extract(prog: Program, func: FuncInfo, solver_names=("self.solver", "self")) -> List[Effect]:
-    return Extractor(prog, func, solver_names).run()
+def extract(prog: Program, func: FuncInfo, solver_names=("self.solver", "self"), cls: Optional[ClassInfo] = None, no_inline=None) -> List[Effect]:
+    return Extractor(prog, func, solver_names, cls=cls, no_inline=no_inline).run()
 
 
 # ------------------------------------------------------------------------------------- normal forms
@@ -405,7 +747,8 @@ class Normalizer:
             if isinstance(a, (ast.GeneratorExp, ast.ListComp)):
                 bs = []
                 for g in a.generators:
-                    conds = " and ".join(sorted(norm(c) for c in g.ifs))
+                    from . import boolnf as _B
+                    conds = _B.key(_B.mk_and([_B.parse(c) for c in g.ifs])) if g.ifs else ""
                     bs.append(f"{norm(g.target)} in {canon_iter(g.iter)}" + (f" if {conds}" if conds else ""))
                 self.lin(a.elt, binders + tuple(bs), guards, out_terms, out_const, opaque, scale)
                 return
@@ -449,9 +792,10 @@ class Normalizer:
             if simp is not None:
                 self.lin(simp, binders, guards, out_terms, out_const, opaque, scale)
                 return
-            t = norm(e.test)
-            self.lin(e.body, binders, guards + (t,), out_terms, out_const, opaque, scale)
-            self.lin(e.orelse, binders, guards + (f"not ({t})",), out_terms, out_const, opaque, scale)
+            from . import boolnf as _B
+            ft = _B.parse(e.test)
+            self.lin(e.body, binders, guards + (_B.key(ft),), out_terms, out_const, opaque, scale)
+            self.lin(e.orelse, binders, guards + (_B.key(_B.mk_not(ft)),), out_terms, out_const, opaque, scale)
             return
         if self.has_var(e):
             opaque.append("unsupported: " + norm(e)[:80])
@@ -461,7 +805,7 @@ class Normalizer:
         if binders:
             c = c * Poly.atom("SUM[" + "; ".join(sorted(binders)) + "]")
         if guards:
-            c = c * Poly.atom("IF[" + " & ".join(guards) + "]")
+            c = c * Poly.atom("IF[" + " & ".join(sorted(guards)) + "]")
         out_const.append(c * scale)
 
     def _simplify_unit_ifexp(self, e: ast.IfExp) -> Optional[ast.AST]:
@@ -487,7 +831,7 @@ class Normalizer:
         if binders:
             s += "SUM[" + "; ".join(sorted(binders)) + "] "
         if guards:
-            s += "IF[" + " & ".join(guards) + "] "
+            s += "IF[" + " & ".join(sorted(guards)) + "] "
         return s + v
 
     def nf(self, expr: ast.AST, rel_override: Optional[str] = None) -> LinNF:
@@ -524,10 +868,176 @@ class Normalizer:
 
 
 # --------------------------------------------------------------------------- context canonicalisation
+def _index_to_direct(fors: List[Ctx], exprs: List[ast.AST]) -> Tuple[List[Ctx], List[ast.AST]]:
+    """`for j in range(len(X))` whose body uses j only as X[j]  ==  `for e in X` (and `enumerate(X)` with an unused index,
+    which the extractor already turned into index form): rewrite to the direct form."""
+    fors = list(fors)
+    for pos, c in enumerate(fors):
+        it = c.iter
+        if not (isinstance(c.target, ast.Name) and isinstance(it, ast.Call) and dotted(it.func) == "range" and len(it.args) == 1 and
+                isinstance(it.args[0], ast.Call) and dotted(it.args[0].func) == "len" and len(it.args[0].args) == 1):
+            continue
+        j = c.target.id
+        seq = it.args[0].args[0]
+        seq_dump = ast.dump(seq)
+        ok = True
+        n_uses = 0
+        others = [x.iter for k, x in enumerate(fors) if k != pos and x.kind == "for"] + [x.test for x in fors if x.kind == "if"]
+        for e in exprs + others:
+            sub_ids = {id(n.slice) for n in ast.walk(e) if isinstance(n, ast.Subscript) and isinstance(n.slice, ast.Name) and n.slice.id == j and
+                       ast.dump(n.value) == seq_dump}
+            for n in ast.walk(e):
+                if isinstance(n, ast.Name) and n.id == j:
+                    n_uses += 1
+                    if id(n) not in sub_ids:
+                        ok = False
+        if not ok or n_uses == 0:
+            continue
+        el = f"{j}__item"
+
+        class R(ast.NodeTransformer):
+            def visit_Subscript(self, node):
+                if isinstance(node.slice, ast.Name) and node.slice.id == j and ast.dump(node.value) == seq_dump:
+                    return ast.Name(id=el, ctx=ast.Load())
+                return self.generic_visit(node)
+        exprs = [R().visit(copy.deepcopy(e)) for e in exprs]
+        fors = [Ctx(x.kind, target=x.target, iter=(R().visit(copy.deepcopy(x.iter)) if x.iter is not None else None),
+                    test=(R().visit(copy.deepcopy(x.test)) if x.test is not None else None), pol=x.pol) for x in fors]
+        fors[pos] = Ctx("for", target=ast.Name(id=el, ctx=ast.Store()), iter=copy.deepcopy(seq))
+    return fors, exprs
+
+
+def _literals(f) -> Optional[List[str]]:
+    """guard as a list of literal texts when it is a conjunction of literals (the usual case)"""
+    from . import boolnf as B
+    if f == B.T:
+        return []
+    parts = f[1] if f[0] == "and" else (f,)
+    out = []
+    for p_ in parts:
+        if p_[0] == "a":
+            out.append(p_[1])
+        elif p_[0] == "not" and p_[1][0] == "a":
+            out.append(f"not ({p_[1][1]})")
+        else:
+            return None
+    return sorted(out)
+
+
+def _split_cases(args: Dict[str, ast.AST]):
+    """Case split on conditional expressions at the top level of the arguments (not under a comprehension that binds a
+    name of the test): [(extra guard formula, specialised args)]."""
+    from . import boolnf as B
+    import itertools
+    units: Dict[str, tuple] = {}
+
+    def collect(e: ast.AST, bound: Set[str]):
+        if isinstance(e, (ast.GeneratorExp, ast.ListComp, ast.SetComp, ast.DictComp)):
+            b2 = set(bound)
+            for g in e.generators:
+                b2 |= {n.id for n in ast.walk(g.target) if isinstance(n, ast.Name)}
+            for ch in ast.iter_child_nodes(e):
+                collect(ch, b2)
+            return
+        if isinstance(e, ast.IfExp):
+            names = {n.id for n in ast.walk(e.test) if isinstance(n, ast.Name)}
+            if not (names & bound):
+                f = B.parse(e.test)
+                k = B.key(f)
+                nk = B.key(B.mk_not(f))
+                if k not in units and nk not in units and f not in (B.T, B.F):
+                    units[k] = f
+        for ch in ast.iter_child_nodes(e):
+            collect(ch, bound)
+    for a in args.values():
+        collect(a, set())
+    if not units or len(units) > 3:
+        return [(B.T, args)]
+    keys = sorted(units)
+    out = []
+    for vals in itertools.product((True, False), repeat=len(keys)):
+        guard = B.mk_and([units[k] if v else B.mk_not(units[k]) for k, v in zip(keys, vals)])
+        if not B.satisfiable(guard):
+            continue
+        truth = dict(zip(keys, vals))
+
+        class S(ast.NodeTransformer):
+            def visit_IfExp(self, node):
+                node = self.generic_visit(node)
+                f = B.parse(node.test)
+                k = B.key(f)
+                if k in truth:
+                    return node.body if truth[k] else node.orelse
+                nk = B.key(B.mk_not(f))
+                if nk in truth:
+                    return node.orelse if truth[nk] else node.body
+                return node
+        out.append((guard, {k: S().visit(copy.deepcopy(v)) for k, v in args.items()}))
+    return out
+
+
+def _payload(kind: str, args: Dict[str, ast.AST], target: Optional[str], nz: "Normalizer") -> Dict[str, object]:
+    out: Dict[str, object] = {}
+    if kind == "add_constraint":
+        if "expr" in args:
+            o = nz.nf(args["expr"])
+            out["nf"] = o.key()
+            out["_nf"] = o
+        else:
+            out["nf"] = "MISSING"
+        nm = args.get("name")
+        out["_name"] = norm(nm)[:60] if nm is not None else ""
+    elif kind == "set_objective":
+        sense = args.get("sense")
+        s_ = "min" if sense is None or (isinstance(sense, ast.Constant) and str(sense.value).startswith("min")) else (
+            "max" if isinstance(sense, ast.Constant) else norm(sense))
+        o = nz.nf(args["expr"], rel_override=f"obj-{s_}")
+        out["nf"] = o.key()
+        out["_nf"] = o
+    elif kind == "add_variables":
+        out["family"] = target
+        for k in ("indexes", "lb", "ub", "var_type"):
+            if k in args:
+                out[k] = poly_text(args[k])
+        out.setdefault("lb", "0")
+        out.setdefault("ub", "1")
+        out.setdefault("var_type", "'integer'")
+    elif kind in ("add_binary_continuous_product_constraint", "add_integer_continuous_product_constraint"):
+        for k in ("binary_var", "integer_var", "continuous_var", "product_var"):
+            if k in args:
+                out[k] = _varref(args[k])
+        for k in ("lb", "ub"):
+            if k in args:
+                out[k] = poly_text(args[k])
+    elif kind == "add_piecewise_constant_constraint":
+        for k in ("x", "y"):
+            if k in args:
+                out[k] = _varref(args[k])
+        for k in ("ranges", "constants"):
+            if k in args:
+                out[k] = norm(args[k])
+    elif kind in ("queue_fix_variable", "queue_set_var_lower_bound", "fix_variable"):
+        out["var"] = _varref(args.get("var")) if "var" in args else "MISSING"
+        v = args.get("value", args.get("lb"))
+        out["value"] = poly_text(v) if v is not None else "MISSING"
+    elif kind == "flag":
+        out["flag"] = target
+        out["index"] = norm(args["index"])
+        out["value"] = norm(args["value"])
+    return out
+
+
 def canon_effect(eff: Effect, var_names: Set[str]) -> Dict[str, object]:
-    """Canonical description of an effect: quantifier, guards and normal form(s), alpha-renamed."""
+    """Canonical description of an effect: quantifier, guard formula and payload (normal form / bounds), alpha-renamed.
+    `_cases` lists (guard formula, payload) after case-splitting conditional expressions in the arguments; conformance
+    compares those, so that one call with a conditional bound and two calls under if/else coincide."""
+    from . import boolnf as B
+    # 0. index -> direct binders
+    arg_keys = list(eff.args)
+    ctx2, arg_vals = _index_to_direct(eff.ctx, [eff.args[k] for k in arg_keys])
+    args0 = dict(zip(arg_keys, arg_vals))
     # 1. collect loop binders, rename bound names positionally by sorted iter text
-    fors = [c for c in eff.ctx if c.kind == "for"]
+    fors = [c for c in ctx2 if c.kind == "for"]
     data_vars: Dict[str, Tuple[str, str, str]] = {}
     binder_descr = []
     for c in fors:
@@ -559,13 +1069,11 @@ def canon_effect(eff: Effect, var_names: Set[str]) -> Dict[str, object]:
     for rank, i in enumerate(order):
         it_ast = canon(fors[i].iter)
         quant.append(f"({', '.join(f'q{rank}_{j}' for j in range(len(binder_descr[i][1])))}) in {canon_iter(it_ast)}")
-    guards = []
-    for c in eff.ctx:
-        if c.kind == "if":
-            guards.append(canon_guard(canon(c.test), c.pol))
-    guards = sorted(set(guards))
+    gf = B.mk_and([B.parse_pol(canon(c.test), c.pol) for c in ctx2 if c.kind == "if"])
+    lits = _literals(gf)
+    guards = lits if lits is not None else [B.key(gf)]
     nz = Normalizer(var_names)
-    out: Dict[str, object] = {"kind": eff.kind, "quant": sorted(quant), "guards": guards}
+    out: Dict[str, object] = {"kind": eff.kind, "quant": sorted(quant), "guards": guards, "_guard": gf}
     # locals built up by in-place mutation have no symbolic value: record how they are built (statement + its guards)
     builders = getattr(eff, "builders", {}) or {}
     used = set()
@@ -587,52 +1095,16 @@ def canon_effect(eff: Effect, var_names: Set[str]) -> Dict[str, object]:
                     todo.append(other)
     if defs:
         out["defs"] = defs
-    if eff.kind == "add_constraint":
-        if "expr" in eff.args:
-            o = nz.nf(canon(eff.args["expr"]))
-            out["nf"] = o.key()
-            out["_nf"] = o
-        else:
-            out["nf"] = "MISSING"
-        nm = eff.args.get("name")
-        out["_name"] = norm(nm)[:60] if nm is not None else ""
-    elif eff.kind == "set_objective":
-        sense = eff.args.get("sense")
-        s = "min" if sense is None or (isinstance(sense, ast.Constant) and str(sense.value).startswith("min")) else (
-            "max" if isinstance(sense, ast.Constant) else norm(sense))
-        o = nz.nf(canon(eff.args["expr"]), rel_override=f"obj-{s}")
-        out["nf"] = o.key()
-        out["_nf"] = o
-    elif eff.kind == "add_variables":
-        out["family"] = eff.target
-        for k in ("indexes", "lb", "ub", "var_type"):
-            if k in eff.args:
-                out[k] = poly_text(canon(eff.args[k]))
-        out.setdefault("lb", "0")
-        out.setdefault("ub", "1")
-        out.setdefault("var_type", "'integer'")
-    elif eff.kind in ("add_binary_continuous_product_constraint", "add_integer_continuous_product_constraint"):
-        for k in ("binary_var", "integer_var", "continuous_var", "product_var"):
-            if k in eff.args:
-                out[k] = norm(canon(eff.args[k])).replace("[(", "[").replace(")]", "]") if False else _varref(canon(eff.args[k]))
-        for k in ("lb", "ub"):
-            if k in eff.args:
-                out[k] = poly_text(canon(eff.args[k]))
-    elif eff.kind == "add_piecewise_constant_constraint":
-        for k in ("x", "y"):
-            if k in eff.args:
-                out[k] = _varref(canon(eff.args[k]))
-        for k in ("ranges", "constants"):
-            if k in eff.args:
-                out[k] = norm(canon(eff.args[k]))
-    elif eff.kind in ("queue_fix_variable", "queue_set_var_lower_bound", "fix_variable"):
-        out["var"] = _varref(canon(eff.args.get("var"))) if "var" in eff.args else "MISSING"
-        v = eff.args.get("value", eff.args.get("lb"))
-        out["value"] = poly_text(canon(v)) if v is not None else "MISSING"
-    elif eff.kind == "flag":
-        out["flag"] = eff.target
-        out["index"] = norm(canon(eff.args["index"]))
-        out["value"] = norm(canon(eff.args["value"]))
+    cargs = {k: canon(v) for k, v in args0.items()}
+    out.update(_payload(eff.kind, cargs, eff.target, nz))
+    cases = []
+    for extra, a2 in _split_cases(cargs):
+        pl = {"kind": eff.kind, "quant": sorted(quant)}
+        if defs:
+            pl["defs"] = defs
+        pl.update(_payload(eff.kind, a2, eff.target, nz))
+        cases.append((B.mk_and([gf, extra]), pl))
+    out["_cases"] = cases
     return out
 
 
